@@ -1,6 +1,7 @@
 //! Per-property check definitions: how many cases, which engine, which oracles, which workload.
 
 use crate::chainsim::{self, Op, Oracles, SchedCfg};
+use grin_keychain::Keychain;
 use crate::rng::SimRng;
 use crate::sim::{CaseResult, CheckSpec, Violation};
 use crate::world::{World, WorldCfg};
@@ -462,6 +463,18 @@ pub fn chainsim_case(property: &str, tier: &str, seed: u64, case: u64) -> CaseRe
 			}
 		}
 	}
+	if property == "C01" {
+		match check_tx_matrix(&mut world) {
+			Ok(n) => res.probe_n("tx_level_corruptions_refused", n),
+			Err(v) => {
+				res.violations.push(Violation {
+					key: format!("C01:{}", v.0),
+					what: v.1,
+					replay: json!({"engine": "chainsim", "property": property, "tier": tier, "case_seed": seed, "tx_matrix_only": true}),
+				});
+			}
+		}
+	}
 	let oracles = oracles_for(property);
 	let mut srng = SimRng::new(seed).fork("schedules");
 	let k = schedules_per_world(property, quick);
@@ -611,6 +624,123 @@ fn compaction_reorg_ops(world: &World) -> Option<Vec<Op>> {
 	}
 	ops.push(Op::Validate { node: 0, fast: false });
 	Some(ops)
+}
+
+/// C01 transaction-level clause: honest transactions of several shapes (ordinary, output-less with
+/// everything burned as fee, multi-kernel aggregates) validate; every single-field corruption of
+/// them (signature, fee, excess, offset, proof, input, output commitment) is refused by
+/// Transaction::validate.
+pub fn check_tx_matrix(world: &mut World) -> Result<u64, (String, String)> {
+	use grin_core::core::transaction::{self, Weighting};
+	use grin_core::core::{FeeFields, KernelFeatures, Transaction};
+	let mut shapes: Vec<(String, Transaction)> = vec![];
+	let tip = world.winner();
+	let height = world.blocks[tip].height + 1;
+	let mut pool = World::spendable(&world.blocks[tip].ledger, height);
+	world.rng.shuffle(&mut pool);
+	// ordinary
+	if let Some(x) = pool.pop() {
+		let fee = grin_core::libtx::tx_fee(1, 2, 1);
+		if x.value > fee + 10 {
+			let a = world.rng.range(1, x.value - fee - 1);
+			let (t, _) = world.wallet.build_tx(&[x.clone()], &[a, x.value - fee - a], None, KernelFeatures::Plain { fee: FeeFields::new(0, fee).unwrap() });
+			shapes.push(("ordinary".into(), t));
+		}
+	}
+	// output-less: the whole input is paid as fee
+	if let Some(x) = pool.pop() {
+		if let Ok(ff) = FeeFields::new(0, x.value) {
+			let (t, _) = world.wallet.build_tx(&[x.clone()], &[], None, KernelFeatures::Plain { fee: ff });
+			shapes.push(("output-less".into(), t));
+		}
+	}
+	// height-locked, single output
+	if let Some(x) = pool.pop() {
+		let fee = grin_core::libtx::tx_fee(1, 1, 1);
+		if x.value > fee + 1 {
+			let (t, _) = world.wallet.build_tx(&[x.clone()], &[x.value - fee], None, KernelFeatures::HeightLocked { fee: FeeFields::new(0, fee).unwrap(), lock_height: height });
+			shapes.push(("height-locked".into(), t));
+		}
+	}
+	// multi-kernel aggregate
+	if shapes.len() >= 2 {
+		if let Ok(a) = transaction::aggregate(&[shapes[0].1.clone(), shapes[shapes.len() - 1].1.clone()]) {
+			shapes.push(("aggregate".into(), a));
+		}
+	}
+	let mut n = 0u64;
+	for (name, tx) in &shapes {
+		if let Err(e) = tx.validate(Weighting::AsTransaction) {
+			return Err(("honest-tx-refused".into(), format!("honest {} transaction fails Transaction::validate: {:?}", name, e)));
+		}
+		let mut variants: Vec<(String, Transaction)> = vec![];
+		for k in 0..tx.body.kernels.len() {
+			let mut t = tx.clone();
+			let mut raw = [0u8; 64];
+			raw.copy_from_slice(&world.rng.bytes(64));
+			if let Ok(sig) = grin_util::secp::Signature::from_raw_data(&raw) {
+				t.body.kernels[k].excess_sig = sig;
+				variants.push((format!("kernel{}-garbage-signature", k), t));
+			}
+			let mut t = tx.clone();
+			let other = world.wallet.secret();
+			t.body.kernels[k].excess = world.wallet.keychain.secp().commit(0, other).unwrap();
+			variants.push((format!("kernel{}-excess-replaced", k), t));
+			let mut t = tx.clone();
+			let f = t.body.kernels[k].features;
+			let extra = 1 + world.rng.below(1000);
+			let bump = |ff: FeeFields| FeeFields::new(0, ff.fee() + extra).unwrap();
+			t.body.kernels[k].features = match f {
+				KernelFeatures::Plain { fee } => KernelFeatures::Plain { fee: bump(fee) },
+				KernelFeatures::HeightLocked { fee, lock_height } => KernelFeatures::HeightLocked { fee: bump(fee), lock_height },
+				other => other,
+			};
+			variants.push((format!("kernel{}-fee-changed", k), t));
+			if let KernelFeatures::HeightLocked { fee, lock_height } = f {
+				let mut t = tx.clone();
+				t.body.kernels[k].features = KernelFeatures::HeightLocked { fee, lock_height: lock_height + 1 };
+				variants.push((format!("kernel{}-lock-height-changed", k), t));
+			}
+		}
+		{
+			let mut t = tx.clone();
+			t.offset = grin_keychain::BlindingFactor::from_secret_key(world.wallet.secret());
+			variants.push(("offset-replaced".into(), t));
+		}
+		if tx.body.outputs.len() >= 2 {
+			let mut t = tx.clone();
+			let p = t.body.outputs[0].proof;
+			t.body.outputs[0].proof = t.body.outputs[1].proof;
+			t.body.outputs[1].proof = p;
+			variants.push(("proofs-swapped".into(), t));
+		}
+		if !tx.body.outputs.is_empty() {
+			let mut t = tx.clone();
+			let k = world.wallet.fresh_key();
+			t.body.outputs[0].identifier.commit = world.wallet.commit(12345, &k);
+			t.body.sort();
+			variants.push(("output-commitment-replaced".into(), t));
+		}
+		{
+			// spend somebody else's output instead
+			let mut t = tx.clone();
+			if let Some(o) = pool.last() {
+				let ins: Vec<grin_core::core::CommitWrapper> = vec![o.commit.into()];
+				t.body.inputs = grin_core::core::Inputs::CommitOnly(ins);
+				variants.push(("input-replaced".into(), t));
+			}
+		}
+		for (vname, t) in variants {
+			if t.validate(Weighting::AsTransaction).is_ok() {
+				return Err((
+					format!("corrupted-tx-accepted:{}", vname.trim_start_matches(|c: char| c.is_ascii_digit())),
+					format!("{} transaction with {} passes Transaction::validate", name, vname),
+				));
+			}
+			n += 1;
+		}
+	}
+	Ok(n)
 }
 
 /// C04 in-run invariant: for every honest header the network difficulty (and secondary scaling
@@ -804,6 +934,11 @@ pub fn replay_chainsim(rp: &Value) -> Result<Option<Violation>, String> {
 		};
 	}
 	let mut world = world?;
+	if rp["tx_matrix_only"].as_bool().unwrap_or(false) {
+		let r = check_tx_matrix(&mut world);
+		world.cleanup();
+		return Ok(r.err().map(|(k, w)| Violation { key: format!("{}:{}", property, k), what: w, replay: rp.clone() }));
+	}
 	if rp["retarget_only"].as_bool().unwrap_or(false) {
 		let r = check_retarget(&world).and_then(|_| check_ftl(&world));
 		world.cleanup();
